@@ -244,8 +244,8 @@ def enclosing_expr(root, node):
     return best
 
 
-def r43(chk, m):
-    R = chk.rule('R4.3', 'local/global insertion table: addLocal -> innermost frame, addGlobal -> frame 0, let -> innermost frame, '
+def r43(chk, m, rule_id='R4.3'):
+    R = chk.rule(rule_id, 'local/global insertion table: addLocal -> innermost frame, addGlobal -> frame 0, let -> innermost frame, '
                  'newcounter/newif/newcount/newdimen/newskip/newmuskip/newcommand/newenvironment/chardef -> global, '
                  'newdef(local) -> innermost / global by flag; def/edef local, gdef/xdef global', 16)
     def store_bases(fn):
